@@ -31,7 +31,19 @@ type AVal struct {
 	End bool    `json:"end,omitempty"`
 }
 
-var NumPool = []float64{0, 1.5, -7, 1e300, 720, 1280}
+// NumPool: the numbers of the model by id; 6.. are the ones whose bit pattern matters (looked up by bits, not by ==):
+// negative zero, +Inf, a NaN with a payload, the smallest subnormal
+var NumPool = []float64{0, 1.5, -7, 1e300, 720, 1280, math.Copysign(0, -1), math.Inf(1), math.Float64frombits(0x7ff8000000000123), 5e-324}
+
+// NumId is the pool index of f (bit for bit), -1 if it is not in the pool
+func NumId(f float64) int {
+	for i, x := range NumPool {
+		if math.Float64bits(x) == math.Float64bits(f) {
+			return i
+		}
+	}
+	return -1
+}
 
 func (s *AStr) Bytes() []byte {
 	if s.S != "" {
@@ -211,12 +223,7 @@ func AmfTokenize(b []byte) (toks []ATok, ok bool) {
 				return false
 			}
 			f := math.Float64frombits(binary.BigEndian.Uint64(b[pos:]))
-			id := -1
-			for i, x := range NumPool {
-				if x == f {
-					id = i
-				}
-			}
+			id := NumId(f)
 			if id < 0 {
 				// numbers outside the pool are reported by value when integral
 				id = 1000000 + int(f)
